@@ -85,18 +85,18 @@ def replay(scn):
             codec = A.LabelCodec(mixed=True)
             kinds = ["i"] * len(a_abs["dims"])
             kinds[d] = kind
-            for byname in (True, False):
+            for byname in (True, False, "neg"):
                 a = A.gamma(a_abs, codec, kinds)
                 before = A.snapshot(a)
-                ax = a_abs["dims"][d] if byname else d
+                ax = a_abs["dims"][d] if byname is True else (d if byname is False else d - a.ndim)
                 variant = "kind=%s byname=%s" % (kind, byname)
                 calls += 1
                 what = None
                 try:
                     if op in ("cumsum", "cumprod"):
-                        res = getattr(a, op)() if (i["dflt"] and byname) else getattr(a, op)(axis=ax)
+                        res = getattr(a, op)() if (i["dflt"] and byname is True) else getattr(a, op)(axis=ax)
                     elif op == "diff":
-                        if i["dflt"] and byname:
+                        if i["dflt"] and byname is True:
                             res = a.diff()
                         else:
                             res = a.diff(axis=ax, scheme=i["scheme"], keepaxis=i["keepaxis"], n=i["n"])
